@@ -300,23 +300,56 @@ func alterPositions(o *origInfo, n int, seed uint64) []int {
 	return pos
 }
 
-func xorValues(pos int, seed uint64, full bool) []int {
-	if full {
+// xorValues: the masks applied at one position. level 0: five (three single
+// bits of different weight, all bits, one seeded); level 1: 32 (every single
+// bit, all bits, 23 seeded); level 2: all 255.
+func xorValues(pos int, seed uint64, level int) []int {
+	if level >= 2 {
 		v := make([]int, 255)
 		for i := range v {
 			v[i] = i + 1
 		}
 		return v
 	}
-	x := int(gen.Fill(gen.Mix(seed, uint64(pos)), 1)[0])
-	if x == 0 || x == 0x01 || x == 0x80 || x == 0xff || x == 0x20 {
-		x = 0x55
+	rnd := gen.Fill(gen.Mix(seed, uint64(pos)), 64)
+	v := []int{0x01, 0x80, 0xff, 0x20}
+	want := 5
+	if level == 1 {
+		v = []int{0x01, 0x02, 0x04, 0x08, 0x10, 0x20, 0x40, 0x80, 0xff}
+		want = 32
 	}
-	return []int{0x01, 0x80, 0xff, 0x20, x}
+	seen := map[int]bool{0: true}
+	for _, x := range v {
+		seen[x] = true
+	}
+	for i := 0; len(v) < want; i++ {
+		x := int(rnd[i%64]) ^ (i / 64)
+		if !seen[x&0xff] {
+			seen[x&0xff] = true
+			v = append(v, x&0xff)
+		}
+	}
+	return v
+}
+
+// alterLevel: how many masks per position a message gets. Quick: 5. Thorough:
+// all 255 for a core of small messages in the default configuration (the
+// pkcs7 code that decides is the same in every configuration), 32 otherwise.
+func alterLevel(name string, size int) int {
+	if !h.Thorough() {
+		return 0
+	}
+	if h.Cfg == "default" && size <= 1100 {
+		switch name {
+		case "sm2-attr", "sm2-noattr", "sm2-attr-digest", "ecdsa-p256-sha256-attr", "rsa-sha256-attr",
+			"EncryptSM/sm4-gcm/sm2", "Encrypt/aes128-gcm/rsa", "PSK/sm4-gcm", "PSK/aes192-gcm", "EncryptCFCA/sm4-gcm/sm2":
+			return 2
+		}
+	}
+	return 1
 }
 
 func TestC16_AlterBytes(t *testing.T) {
-	full := h.Thorough()
 	h.Sweep(t, h.P{Name: "alter-bytes"}, func(emit func(alterCase)) {
 		for _, m := range alterMessages() {
 			ctx, err := buildAlterCtx(m)
@@ -330,7 +363,7 @@ func TestC16_AlterBytes(t *testing.T) {
 				continue
 			}
 			for _, p := range alterPositions(o, len(ctx.Orig), h.Seed) {
-				for _, x := range xorValues(p, h.Seed, full && len(ctx.Orig) <= 800) {
+				for _, x := range xorValues(p, h.Seed, alterLevel(m.Name, len(ctx.Orig))) {
 					emit(alterCase{alterCtx: *ctx, Pos: p, Xor: x})
 				}
 			}
